@@ -200,7 +200,7 @@ func cmdEnum(args []string) {
 					continue
 				}
 				id++
-				c := gh.Case{Ev: "case", Def: d.ID, ID: *idBase + 40000000 + 100*d.ID + n, Argv: []gh.Tok{}, Comp: "help", HN: n + 1}
+				c := gh.Case{Ev: "case", Def: d.ID, ID: *idBase + 40000000 + 100*d.ID + n, Argv: []gh.Tok{}, Comp: "help", HN: n + 1, NDOnly: d.NDOnly}
 				c.Res = gh.RunCase(d, &c)
 				line, _ := json.Marshal(&c)
 				block = append(block, line)
@@ -232,7 +232,7 @@ func cmdEnum(args []string) {
 					stats["history-case"]++
 				}
 				for ti, target := range targets {
-					c := gh.Case{Ev: "case", Def: d.ID, ID: *idBase + 2*id + ti, Argv: argv, Disp: d.Disp, Comp: target}
+					c := gh.Case{Ev: "case", Def: d.ID, ID: *idBase + 2*id + ti, Argv: argv, Disp: d.Disp, Comp: target, NDOnly: d.NDOnly}
 					c.Res = gh.RunCase(d, &c)
 					line, _ := json.Marshal(&c)
 					block = append(block, line)
